@@ -76,7 +76,7 @@ def body(run):
     )
     cases = []
     if q:
-        plan = [(3, 200, 0, 20, "cb", 0), (3, 200, 6, 20, "cb", 300), (2, 100, 0, 50, "chan", 500), (3, 150, 8, 10, "chan", 200)]
+        plan = [(3, 200, 0, 20, "cb", 0), (3, 200, 25, 20, "cb", 300), (2, 100, 0, 50, "chan", 500), (3, 150, 40, 10, "chan", 200)]
     else:
         plan = [(3, 200, 0, 20, "cb", 0), (3, 200, 6, 20, "cb", 300), (2, 100, 0, 50, "chan", 500), (3, 150, 8, 10, "chan", 200),
                 (16, 2000, 0, 20, "cb", 0), (16, 2000, 40, 20, "cb", 100), (8, 5000, 0, 10, "chan", 0), (8, 3000, 60, 10, "cb", 50),
